@@ -257,6 +257,13 @@ impl Pt {
             Pt::G2(p) => p.to_affine().to_compressed().to_vec(),
         }
     }
+    /// the OTHER standard serialization: x || y (96 / 192 bytes, flag bits clear)
+    pub fn to_uncompressed(&self) -> Vec<u8> {
+        match self {
+            Pt::G1(p) => p.to_affine().to_uncompressed().to_vec(),
+            Pt::G2(p) => p.to_affine().to_uncompressed().to_vec(),
+        }
+    }
     pub fn is_identity(&self) -> bool {
         match self {
             Pt::G1(p) => bool::from(p.is_identity()),
@@ -704,6 +711,23 @@ pub fn pok_verify(b: &Bls, u: &Pt, v: &Pt, pk: &Pt, y: &Scalar, msg: &[u8], dst:
     }
     let a = b.hash_msg(msg, dst);
     pairing_product_is_one(&[(*v, b.pk_gen()), (u.add(&a.mul(y)), *pk)])
+}
+
+/// Ciphersuite identifiers of EARLIER drafts of draft-irtf-cfrg-bls-signature (-00/-01 spelling) and a few other
+/// near-misses of the current ones: what a "compatibility" path would accept. Nothing made under them is valid.
+pub fn historical_tags(sig_in_g1: bool) -> Vec<Vec<u8>> {
+    let g = if sig_in_g1 { "G1" } else { "G2" };
+    let mut v: Vec<String> = vec![];
+    for kind in ["NUL", "AUG", "POP"] {
+        v.push(format!("BLS_SIG_BLS12381{}-SHA256-SSWU-RO-_{}_", g, kind));
+        v.push(format!("BLS_SIG_BLS12381{}_XMD:SHA-256_SSWU_RO_{}", g, kind));
+        v.push(format!("BLS_SIG_BLS12381{}_XMD:SHA-256_SSWU_NU_{}_", g, kind));
+    }
+    v.push(format!("BLS_POP_BLS12381{}-SHA256-SSWU-RO-_POP_", g));
+    v.push(format!("BLS_POP_BLS12381{}_XMD:SHA-256_SSWU_RO_POP", g));
+    v.push(format!("BLS_POP_BLS12381{}_XMD:SHA-256_SSWU_RO_NUL_", g));
+    v.push(format!("QUUX-V01-CS02-with-BLS12381{}_XMD:SHA-256_SSWU_RO_", g));
+    v.into_iter().map(|s| s.into_bytes()).collect()
 }
 
 /// ElGamal in the public-key group with message generator H = hash_to_curve(P) under ENC_DST
